@@ -554,9 +554,16 @@ impl Document {
 
             cursor += 1;
 
-            if cursor >= self.tokens.len() - 1 {
+            if cursor >= self.tokens.len() {
                 break;
             }
+        }
+
+        // An initialism that runs up to the end of the document still has to be closed: the
+        // canonical token must cover the tokens that are about to be removed.
+        if let Some(start) = initialism_start {
+            let end = self.tokens[cursor - 2].span.end;
+            self.tokens[start].span.end = end;
         }
 
         self.tokens.remove_indices(to_remove);
